@@ -67,6 +67,15 @@ def gen_eval(tier, R):
         for x in signed:
             for y in signed:
                 case(f"(bin {o} (lit {num(x)}) (lit {num(y)}))")
+    # equality and order of ARRAYS whose corresponding elements are pairs on which `=` and the order treat kinds differently (Boolean vs 0/1, NaN vs NaN,
+    # numeric string vs number, signed zeros): element-wise `=` inside arrays, at depth 1 and 2, alone and followed by an equal element
+    eqp = [(b(True), num(1.0)), (b(False), num(0.0)), (num(NAN), num(NAN)), (s("1"), num(1.0)), (s("1.0"), num(1.0)), (num(-0.0), num(0.0)), (s("a"), s("a")), (b(True), s("1")),
+           (num(1.0), num(2.0)), (s(""), num(0.0)), (arr(), s("")), (b(True), b(True))]
+    for p_, q_ in eqp:
+        for (l_, r_) in [(arr(p_), arr(q_)), (arr(q_), arr(p_)), (arr(p_, s("x")), arr(q_, s("x"))), (arr(num(5.0), p_), arr(num(5.0), q_)), (arr(arr(p_)), arr(arr(q_))), (arr(arr(p_, q_)), arr(arr(q_, p_))),
+                         (arr(p_), arr(q_, num(0.0))), (p_, q_), (q_, p_)]:
+            for o in ["equal", "notEqual", "less", "lessEqual", "greater", "greaterEqual"]:
+                case(f"(bin {o} (lit {l_}) (lit {r_}))")
     sstr = ["-1", "-0.5", "-7", "+7", "-7.5", "7", "-0", "-inf", "-1e3", " -1", "-", "--1"]
     for o in ["greater", "greaterEqual", "less", "lessEqual", "equal", "notEqual", "plus", "minus"]:
         for t in sstr:
@@ -212,6 +221,19 @@ def gen_opt(tier, R, kind='opt'):
         for xv in (xb if tier == 'thorough' else R.sample(xb, 6)):
             binds = ([('x', xv)] if xv is not None else []) + [('y', R.choice(xb[:-1]))]
             out.append(f"({kind} _ {env(binds, OPT_FNS_S)} {e})")
+    # deep constant nesting: a fold removes one level per pass, so the number of passes grows with the depth (a bound on passes, or a quadratic walk, shows here)
+    def nest(d, wrap, leaf):
+        e = leaf
+        for _ in range(d):
+            e = wrap(e)
+        return e
+    wraps = [lambda e: f"(un minus {e})", lambda e: f"(un not {e})", lambda e: f"(arr {e})", lambda e: f"(bin plus {e} {L(num(1.0))})", lambda e: f"(bin plus {L(num(1.0))} {e})",
+             lambda e: f"(call {s('p1')} {e})", lambda e: f"(call {s('echo')} {e} {L(num(2.0))})", lambda e: f"(ter ternaryCondition {L(b(True))} {e} {L(num(0.0))})",
+             lambda e: f"(call {s('if_then')} {L(b(True))} {e} {L(num(0.0))})", lambda e: f"(arr {L(num(0.0))} (un minus {e}))"]
+    for d in ([1, 2, 5, 9, 10, 11, 12, 16, 20, 33, 50] if tier == 'quick' else list(range(1, 64))):
+        for w in wraps:
+            for leaf in (L(num(5.0)), L(b(True)), X):
+                out.append(f"({kind} _ {env([('x', num(2.0))], OPT_FNS_S)} {nest(d, w, leaf)})")
     N = 12000 if tier == 'quick' else 500000
     i = 0
     while i < N:
